@@ -30,7 +30,7 @@ ModPe    == 2
 
 VARIABLES
   rs,          \* rule set [rules |-> Seq(rule), imports |-> Seq(module name)]
-  phase,       \* "idle" | "blocks" | "inblock" | "suspended" | "exec" | "report"
+  phase,       \* "idle" | "blocks" | "gotblock" | "inblock" | "suspended" | "exec" | "report"
   cur,         \* the call in progress
   flags,       \* SUBSET {"match","nomatch"}: report flags
   timeout,     \* BOOLEAN: a 1 ns timeout is armed
@@ -221,17 +221,21 @@ IterNotReady ==                 \* the iterator answers "not ready" in the block
   /\ Return("BLOCK_NOT_READY", FALSE)
   /\ UNCHANGED <<rs, cur, flags, timeout, leaked, entryPoint, fileSize, modules, execNR, cb>>
 
-BlockTimeout ==                 \* scanner.c:74 (checked at i = 0 of a non-empty block)
-  /\ phase = "blocks" /\ HasBlock /\ timeout /\ CurBlock.size > 0
+IterBlock ==                    \* the iterator hands out block cur.pos (scanner.c:527-540)
+  /\ phase = "blocks" /\ HasBlock
   /\ iterErr' = "ok"
   /\ entryPoint' = IF entryPoint = UNDEF THEN CurBlock.ep ELSE entryPoint
-  /\ Return("TIMEOUT", TRUE)
-  /\ UNCHANGED <<rs, cur, flags, timeout, leaked, fileSize, modules, execNR, cb>>
+  /\ phase' = "gotblock"
+  /\ UNCHANGED <<rs, cur, flags, timeout, matches, reqEval, ruleFlags, nsUnsat, disabled, notebook, leaked, fileSize,
+                 modules, execNR, cb, ret>>
 
-IterBlock ==                    \* a block is handed out and scanned (scan.c)
-  /\ phase = "blocks" /\ HasBlock /\ ~(timeout /\ CurBlock.size > 0)
-  /\ iterErr' = "ok"
-  /\ entryPoint' = IF entryPoint = UNDEF THEN CurBlock.ep ELSE entryPoint
+BlockTimeout ==                 \* scanner.c:74 (elapsed time is checked at i = 0 of a non-empty block)
+  /\ phase = "gotblock" /\ timeout /\ CurBlock.size > 0
+  /\ Return("TIMEOUT", TRUE)
+  /\ UNCHANGED <<rs, cur, flags, timeout, leaked, entryPoint, fileSize, iterErr, modules, execNR, cb>>
+
+ScanBlock ==                    \* the block is scanned (scan.c): matches accumulate, rules become due for evaluation
+  /\ phase = "gotblock" /\ ~(timeout /\ CurBlock.size > 0)
   /\ LET b    == CurBlock
          hit  == {i \in RuleIdx : Rule(i).mk # 0 /\ i \notin disabled /\ b.mk[Rule(i).mk] > 0}
          over == {i \in hit : matches[i] + b.mk[Rule(i).mk] > MaxMatches}
@@ -240,7 +244,8 @@ IterBlock ==                    \* a block is handed out and scanned (scan.c)
         /\ reqEval' = reqEval \cup hit
         /\ cur' = [cur EXCEPT !.over = over]
   /\ phase' = "inblock"
-  /\ UNCHANGED <<rs, flags, timeout, ruleFlags, nsUnsat, disabled, notebook, leaked, fileSize, modules, execNR, cb, ret>>
+  /\ UNCHANGED <<rs, flags, timeout, ruleFlags, nsUnsat, disabled, notebook, leaked, entryPoint, fileSize, iterErr,
+                 modules, execNR, cb, ret>>
 
 TooMany(i, reply) ==            \* scan.c:1094 CALLBACK_MSG_TOO_MANY_MATCHES
   /\ phase = "inblock" /\ i \in cur.over
@@ -390,7 +395,7 @@ LimitIsolation ==
          (cb[j].msg = "match") = EReported(cur.file)[cb[j].x]
 
 TypeOK ==
-  /\ phase \in {"idle", "blocks", "inblock", "suspended", "exec", "report"}
+  /\ phase \in {"idle", "blocks", "gotblock", "inblock", "suspended", "exec", "report"}
   /\ flags \subseteq {"match", "nomatch"}
   /\ reqEval \subseteq RuleIdx /\ ruleFlags \subseteq RuleIdx /\ disabled \subseteq RuleIdx
   /\ \A i \in RuleIdx : matches[i] <= MaxMatches
